@@ -978,7 +978,8 @@ func runBehaviour(steps []bStep, auth string, maxqos int, res *Result) (result *
 					return &brokerMismatch{where + ": VerifServe: " + err.Error(), "INFRA"}
 				}
 				go pc.Write(connectBytes(bAct{K: "probe", Clean: true, Ka: 60}))
-				p, err := readPkt(pc, r.tmo)
+				// (well within the broker's connect timeout of 2 s: the answer must not have to wait for the stalled handshake to time out)
+				p, err := readPkt(pc, time.Second)
 				if err != nil || p.first != 0x20 || len(p.body) != 2 || p.body[1] != 0 {
 					pc.Close()
 					cl.Close()
